@@ -336,9 +336,9 @@ def run(ctx):
 
 
 META = {
-    "technique": "who-may-throw / forbidden-call query over the front end; guard dominance and must-precede for the macro re-entry protocol; re-filed typestate (tokenizer cursor), guard and control-dependence rules of C12, C13, C14, C22",
+    "technique": "who-may-throw / forbidden-call query over the front end; guard dominance and must-precede for the macro re-entry protocol (incl. snapshot / re-arm around argument reads); null typestate of every NULL-initialised pointer local over the 145 front-end units (feasible-path search with null-initialiser facts); computed set of error-signalling nullable producers (closed under forwarding) and optional accessors with a tested-before-use check at every use; array extent vs validated nesting depth; re-filed typestate (tokenizer cursor), guard and control-dependence rules of C12, C13, C14, C22",
     "level": "PARTIAL by construction: crash freedom for every input is not decidable by a static rule within reach. Decided on all paths: the front end throws only occa::exception and never terminates the process; macro expansion cannot re-enter "
-             "a macro being expanded; the tokenizer never advances past the terminating NUL; no std::string is built from NULL; preprocessor conditions and operands that C skips are not evaluated; integer division by zero raises; no backend "
-             "transform runs on an unvalidated kernel. Each clause has a concrete crashing or foreign-exception input when broken (seven such defects were found and repaired on the pinned tree).",
-    "note": "NOT decided: absence of null dereferences, out-of-range container accesses or unbounded recursion in the ~15 kLoC parser/transform code in general. A pass here does not prove C16; a failure disproves it.",
+             "a macro being expanded, also not through the arguments of a function-like macro started inside its expansion; no NULL-initialised pointer local of the front end reaches a dereference unassigned; every NULL result that signals a reported error (13 uses of 30+ producers) is tested before use; the three-entry dimension arrays cover the validated nesting depth; the tokenizer never advances past the terminating NUL; no std::string is built from NULL; preprocessor conditions and operands that C skips are not evaluated; integer division by zero raises; no backend "
+             "transform runs on an unvalidated kernel. Each clause has a concrete crashing or foreign-exception input when broken (thirteen such defects were found and repaired on the pinned tree).",
+    "note": "NOT decided: null dereferences through members, parameters and container elements (only locals and producer results are tracked), out-of-range container accesses, foreign exceptions thrown by the standard library (std::stoi ...), or unbounded recursion in the ~15 kLoC parser/transform code in general. A pass here does not prove C16; a failure disproves it.",
 }
